@@ -12,7 +12,7 @@ namespace XotModel
 
 /-! ### Name checks as membership in the top frame -/
 
-/-- Some prefix is bound to `ns` (`is_namespace_known`). -/
+/-- Some prefix is bound to `ns`. -/
 def knownIn (l : List (Nat × Nat)) (ns : Nat) : Bool := l.any (fun kv => kv.2 == ns)
 
 /-- Some non-empty prefix is bound to `ns` (what an attribute name needs). -/
